@@ -88,7 +88,6 @@ any of the arguments corresponding to %s is a null pointer.
 EXPORT int swscanf_s(const wchar_t *restrict src, const wchar_t *restrict fmt,
                      ...) {
     va_list ap;
-    wchar_t *p;
     int ret;
 
     if (unlikely(src == NULL)) {
@@ -110,29 +109,12 @@ EXPORT int swscanf_s(const wchar_t *restrict src, const wchar_t *restrict fmt,
         return EOF;
     }
 
-#if defined(HAVE_WCSSTR) || !defined(SAFECLIB_DISABLE_EXTENSIONS)
-    if (unlikely((p = wcsstr((wchar_t *)fmt, L"%n")))) {
-        if ((p - fmt == 0) || *(p - 1) != L'%') {
-            invoke_safe_str_constraint_handler("swscanf_s: illegal %n",
-                                               (void *)src, EINVAL);
-            errno = EINVAL;
-            return EOF;
-        }
+    if (unlikely(safec_wfmt_has_n(fmt))) {
+        invoke_safe_str_constraint_handler("swscanf_s: illegal %n",
+                                           (void *)src, EINVAL);
+        errno = EINVAL;
+        return EOF;
     }
-#elif defined(HAVE_WCSCHR)
-    if (unlikely((p = wcschr(fmt, flen, L'n')))) {
-        /* at the beginning or if inside, not %%n */
-        if (((p - fmt >= 1) && *(p - 1) == L'%') &&
-            ((p - fmt == 1) || *(p - 2) != L'%')) {
-            invoke_safe_str_constraint_handler("swscanf_s: illegal %n",
-                                               (void *)src, EINVAL);
-            errno = EINVAL;
-            return EOF;
-        }
-    }
-#else
-#error need wcsstr or wcschr
-#endif
 
     errno = 0;
     va_start(ap, fmt);
